@@ -853,3 +853,166 @@ Proof.
 Qed.
 
 End SetBulkExact.
+
+(* ======================================================================== *)
+(* ROUND 2                                                                   *)
+(* ======================================================================== *)
+
+(* ------------------------------------------------------------------------ *)
+(* 4. collect / From: the panic stated positively; arrays cannot overflow    *)
+(* ------------------------------------------------------------------------ *)
+Lemma nodup_length_le {A} (dec : forall x y : A, {x = y} + {x <> y}) (l : list A) :
+  length (nodup dec l) <= length l.
+Proof.
+  induction l as [|a t IH]; [reflexivity|]. cbn [nodup length].
+  destruct (in_dec dec a t); cbn [length]; lia.
+Qed.
+
+Section CollectPanics.
+Context {K V Q T : Type} (E : env K V Q T) (debug : bool).
+Context (ck : K -> N) (cq : Q -> N) (HL : Lawful E ck cq).
+Notation world := (world K V T).
+Notation kv := (K * V)%type.
+
+(* FromIterator / From<[(K,V); N]>: when the list machine overflows the run IS
+   a panic (both builds), with the exact log of from_iter_overflow *)
+Lemma from_iter_overflow_panics nx items (w : world) :
+  (forall s, fst (nx s) <> Boom) -> WF (self w) -> len (self w) = 0 ->
+  l_extend ck (cap (self w)) [] items = None ->
+  exists w' pre x post res,
+    from_iter E debug nx items w = Panic w' /\
+    items = pre ++ x :: post /\
+    l_extend ck (cap (self w)) [] pre = Some res /\
+    find_idx ck (ck (fst x)) res = None /\
+    length res = cap (self w) /\
+    log w' = log w ++ ext_evs E ck [] pre ++ [EvCall 1] ++
+                      arg_drops E x ++ flat_map (pair_drops E) post ++ flat_map (pair_drops E) res.
+Proof.
+  intros Hnx Hw Hlen Hov.
+  destruct (wp_must_panic _ _ _ _ (from_iter_overflow E debug ck cq HL nx items w Hnx Hw Hlen))
+    as (w' & He & _ & pre & x & post & res & H).
+  - intros _ w' (_ & _ & Hex & _). congruence.
+  - exists w', pre, x, post, res. split; [exact He | exact H].
+Qed.
+
+(* a source of at most N items cannot overflow a container of capacity N: an
+   array [(K,V); N] collected into Map<K,V,N> never panics (lawful ==/Drop) *)
+Lemma l_extend_fits (n : nat) (items : list kv) :
+  length items <= n -> l_extend ck n [] items <> None.
+Proof.
+  intros Hn Hov. apply (bulk_overflow ck n items) in Hov.
+  pose proof (nodup_length_le N.eq_dec (List.map (fun p : kv => ck (fst p)) items)) as Hle.
+  rewrite map_length in Hle. lia.
+Qed.
+
+Lemma from_iter_no_overflow nx items (w : world) :
+  WF (self w) -> len (self w) = 0 -> length items <= cap (self w) ->
+  (forall s, fst (nx s) <> Boom) ->
+  wp (from_iter E debug nx items)
+     (fun _ w' => WF (self w') /\ cap (self w') = cap (self w) /\
+                  l_extend ck (cap (self w)) [] items = Some (elems (self w')) /\
+                  log w' = log w ++ ext_evs E ck [] items ++ [EvCall 1])
+     (fun _ => False) w.
+Proof.
+  intros Hw Hlen Hfit Hnx.
+  eapply wp_mono; [apply (from_iter_overflow E debug ck cq HL nx items w Hnx Hw Hlen) | |]; cbn beta.
+  - intros _ w' H. exact H.
+  - intros w' (Hov & _). exact (l_extend_fits _ _ Hfit Hov).
+Qed.
+
+Lemma from_iter_no_overflow_returns nx items (w : world) :
+  WF (self w) -> len (self w) = 0 -> length items <= cap (self w) ->
+  (forall s, fst (nx s) <> Boom) ->
+  exists w', from_iter E debug nx items w = Ok tt w' /\
+             WF (self w') /\ cap (self w') = cap (self w) /\
+             l_extend ck (cap (self w)) [] items = Some (elems (self w')).
+Proof.
+  intros Hw Hlen Hfit Hnx.
+  destruct (wp_must_return _ _ _ (from_iter_no_overflow nx items w Hw Hlen Hfit Hnx)) as ([] & w' & He & H1 & H2 & H3 & _).
+  exists w'. auto.
+Qed.
+
+End CollectPanics.
+
+Section SetCollectPanics.
+Context {K Q T : Type} (E : env K unit Q T) (debug : bool).
+Context (ck : K -> N) (cq : Q -> N) (HL : Lawful E ck cq).
+Notation world := (world K unit T).
+
+Lemma s_from_iter_overflow_panics nx items (w : world) :
+  (forall s, fst (nx s) <> Boom) -> WF (self w) -> len (self w) = 0 ->
+  l_extend ck (cap (self w)) [] (unit_items items) = None ->
+  exists w' pre x post res,
+    s_from_iter E debug nx items w = Panic w' /\
+    items = pre ++ x :: post /\
+    l_extend ck (cap (self w)) [] (unit_items pre) = Some res /\
+    find_idx ck (ck x) res = None /\
+    length res = cap (self w) /\
+    log w' = log w ++ s_ext_evs E ck [] pre ++ [EvCall 1] ++
+                      arg_drops E (x, tt) ++ flat_map (pair_drops E) (unit_items post) ++
+                      flat_map (pair_drops E) res.
+Proof.
+  intros Hnx Hw Hlen Hov.
+  destruct (wp_must_panic _ _ _ _ (s_from_iter_overflow E debug ck cq HL nx items w Hnx Hw Hlen))
+    as (w' & He & _ & pre & x & post & res & H).
+  - intros _ w' (_ & _ & Hex & _). congruence.
+  - exists w', pre, x, post, res. split; [exact He | exact H].
+Qed.
+
+Lemma s_from_iter_no_overflow nx items (w : world) :
+  WF (self w) -> len (self w) = 0 -> length items <= cap (self w) ->
+  (forall s, fst (nx s) <> Boom) ->
+  wp (s_from_iter E debug nx items)
+     (fun _ w' => WF (self w') /\ cap (self w') = cap (self w) /\
+                  l_extend ck (cap (self w)) [] (unit_items items) = Some (elems (self w')) /\
+                  log w' = log w ++ s_ext_evs E ck [] items ++ [EvCall 1])
+     (fun _ => False) w.
+Proof.
+  intros Hw Hlen Hfit Hnx.
+  eapply wp_mono; [apply (s_from_iter_overflow E debug ck cq HL nx items w Hnx Hw Hlen) | |]; cbn beta.
+  - intros _ w' H. exact H.
+  - intros w' (Hov & _). apply (l_extend_fits ck (cap (self w)) (unit_items items)); [|exact Hov].
+    unfold unit_items. rewrite map_length. exact Hfit.
+Qed.
+
+End SetCollectPanics.
+
+(* ------------------------------------------------------------------------ *)
+(* 5. or_default as the interpreter runs it                                   *)
+(* ------------------------------------------------------------------------ *)
+(* The model has no separate [or_default]: Entry::or_default() is
+   or_insert_with(Default::default), and the interpreter (Model/Exec.v,
+   entry_chain, chain 3) runs  or_insert_with Em debug e (mk_default sc).
+   [d_default] is the default-maker inside mk_default: it ticks the closure
+   counter and builds a fresh object (id next_id, payload 0).  Unless the script
+   makes this very call panic (fault kind 4), mk_default sc is mk_of (d_default sc). *)
+Require Import Model.Exec.
+
+Definition d_default (sc : script) (s : cstate) : vobj * cstate :=
+  let s' := snd (call_tick sc s) in
+  ({| vid := next_id s'; vdat := 0 |},
+   {| n_eq := n_eq s'; n_clone := n_clone s'; n_call := n_call s'; next_id := next_id s' + 1 |}).
+
+Lemma mk_default_is_mk_of sc :
+  sc_fk sc <> 4%N -> forall s, mk_default sc s = mk_of (d_default sc) s.
+Proof.
+  intros Hk s. unfold mk_default, mk_of, d_default, call_tick. cbn [fst snd].
+  destruct (N.eqb_spec (sc_fk sc) 4) as [Heq|_]; [contradiction|]. reflexivity.
+Qed.
+
+Lemma or_default_exec_full_panics (E : env key vobj query cstate) (debug : bool)
+      (ck : key -> N) (cq : query -> N) (HL : Lawful E ck cq) (sc : script) k (w : world key vobj cstate) :
+  sc_fk sc <> 4%N ->
+  WF (self w) -> find_idx ck (ck k) (Spec.elems (self w)) = None -> len (self w) = cap (self w) ->
+  exists w1 w',
+    entry_of E k w = Ok (Vacant k) w1 /\ self w1 = self w /\ log w1 = log w /\
+    (e <- entry_of E k ;; or_insert_with E debug e (mk_default sc)) w = Panic w' /\ self w' = self w /\
+    logged w w' ([EvCall 2] ++ ev_drops (idV E (fst (d_default sc (cb w1))) ++ idK E k)).
+Proof.
+  intros Hk Hw Hf Hfull.
+  destruct (or_insert_with_full_panics E debug ck cq HL k (mk_default sc) w Hw Hf Hfull)
+    as (w1 & v & s' & w' & He & Hs1 & Hl1 & Hfv & Hr & Hs & Hl).
+  { intros s. rewrite (mk_default_is_mk_of sc Hk). eexists. eexists. reflexivity. }
+  rewrite (mk_default_is_mk_of sc Hk) in Hfv. unfold mk_of in Hfv. injection Hfv as <- <-.
+  exists w1, w'. repeat (split; [assumption|]). exact Hl.
+Qed.
